@@ -1,3 +1,24 @@
+// dbg evaluates the file given as argument in one interpreter and prints the
+// value or error and the depths of the four VM stacks before and after.
 package main
-import ("fmt";"runtime/debug";"github.com/glycerine/zygomys/v9/zygo")
-func main(){ env:=zygo.NewZlisp(); env.StandardSetup(); v,err:=env.EvalString("(field a.b a:)\n"); fmt.Println(err); defer func(){ if r:=recover(); r!=nil { fmt.Println(r); fmt.Println(string(debug.Stack())) } }(); fmt.Println(v.SexpString(nil)) }
+
+import (
+	"fmt"
+	"os"
+
+	"github.com/glycerine/zygomys/v9/zygo"
+	"zyverif/sut"
+)
+
+func main() {
+	b, err := os.ReadFile(os.Args[1])
+	if err != nil {
+		panic(err)
+	}
+	env := sut.New(true)
+	fmt.Println("before:", sut.DepthsOf(env))
+	o := sut.Eval(env, string(b), 1000000)
+	fmt.Printf("value=%s err=%v panic=%q\n", sut.Show(o.Val), o.Err, o.Panic)
+	fmt.Println("after: ", sut.DepthsOf(env))
+	_ = zygo.SexpNull
+}
